@@ -178,6 +178,22 @@ func NewPool(seed uint64, perType, zeros int) *Pool {
 			add(k)
 		}
 	}
+	// keys with TWO leading zero bytes in one coordinate (p ~ 2^-15 per key; smallest such scalars, found once by search)
+	for _, dz := range []struct {
+		t   KeyType
+		d   int64
+		tag string
+	}{{P256, 40393, "x00"}, {P256, 2376, "y00"}, {Secp256k1, 44629, "x00"}, {Secp256k1, 41192, "y00"}, {P384, 14971, "x00"}, {P384, 93150, "y00"}} {
+		k := keyFromScalar(dz.t, big.NewInt(dz.d))
+		c := k.X
+		if dz.tag == "y00" {
+			c = k.Y
+		}
+		if c[0] == 0 && c[1] == 0 {
+			k.Tags = []string{dz.tag}
+			add(k)
+		}
+	}
 	return p
 }
 
